@@ -195,7 +195,7 @@ def _c15():
     d = _simple(hs, ["color::Color::{from_rgba, from_rgba_fn, red, green, blue, alpha, with_alpha, fade_in, fade_out, hue_to_rgb}",
                      "value::number::{Number::clamp, Number::round, fuzzy_round}", "serializer::Serializer::{is_symmetrical_hex, can_use_short_hex}", "parse::value::ValueParser::{parse_hex_color_contents, parse_hex_digit}"],
                 "every f64 argument (full width, symbolic); all 8-bit channel triples; every hex literal of 3/4 (6/8 thorough) digits; hue_to_rgb on the lattice m1=a/L, m2=b/L, "
-                "hue=c/3L (L=32 quick, 256 thorough), every point",
+                "hue=c/3L (L=32 quick, 256 thorough), every point; update_value (adjust/scale/change component update)",
                 "RGB<->HSL/HWB round trips (about 25 double multiplications/divisions per colour do not finish), the named "
                 "colour table (phf), lighten/darken/mix identities, compressed-mode spelling choice",
                 stubs=["engine F: C models of the std float methods, MIR->C translation validated natively each run"])
@@ -204,6 +204,14 @@ def _c15():
          "bound": "hue_to_rgb (MIR->C) within [m1, m2] and channel in [0,255]: lattice L=32 (33x33x161 points)"},
         {"name": "c15_hue_to_rgb", "inputs": ["a", "b", "c3"], "tiers": ("thorough",), "extra": ["-DLAT=256"], "timeout": {"thorough": 2400},
          "bound": "hue_to_rgb lattice L=256"},
+        {"name": "c15_update_value", "inputs": ["current", "param", "big", "has", "a", "b"], "extra": ["-DUPD=1"], "replay": "c-native",
+         "timeout": {"quick": 900, "thorough": 1800},
+         "bound": "update_value (nested fn of adjust-/scale-/change-color, MIR->C), Adjust: current any double in [0, max], amount any finite double, max in {1, 255}"},
+        {"name": "c15_update_value", "inputs": ["current", "param", "big", "has", "a", "b"], "extra": ["-DUPD=2"], "replay": "c-native",
+         "timeout": {"quick": 600, "thorough": 1200},
+         "bound": "update_value, Scale: lattice current = a/64 max, amount = b/64 (65 x 129 points)"},
+        {"name": "c15_update_value", "inputs": ["current", "param", "big", "has", "a", "b"], "extra": ["-DUPD=0"], "replay": "c-native",
+         "timeout": {"quick": 600, "thorough": 1200}, "bound": "update_value, Change: any doubles"},
     ])]
     return d
 
